@@ -331,6 +331,133 @@ pub extern "C" fn harness_lcd_pixels() -> i32 {
     0
 }
 
+// ---------------------------------------------------------------------------------------------
+// Keyboard (C14).  An arbitrary state of two chosen keys, the strobe registers, the thresholds and the
+// event ring is loaded through the public snapshot API (KeyboardSnapshot has public fields), then one
+// operation runs.  Inputs: 300/340 name lengths, 301../341.. name bytes (concrete), 400+8*i+{0..4} key
+// i pressed/debounced/press/release/repeat ticks, 420.. registers and settings, 430.. ring, 450.. op.
+use sc62015_core::keyboard::{KeyStateSnapshot, KeyboardMatrix, KeyboardSnapshot};
+use std::collections::HashMap;
+
+fn kb_name(base: u32) -> String {
+    let n = vin(base);
+    (0..n).map(|i| (vin(base + 1 + i) & 0x7F) as u8 as char).collect()
+}
+
+fn kb_prepare(mem: &mut MemoryImage) -> KeyboardMatrix {
+    let mut key_states: HashMap<String, KeyStateSnapshot> = HashMap::new();
+    for i in 0..2u32 {
+        let b = 400 + 8 * i;
+        key_states.insert(
+            kb_name(300 + 40 * i),
+            KeyStateSnapshot {
+                pressed: vin(b) & 1 != 0,
+                debounced: vin(b + 1) & 1 != 0,
+                press_ticks: vin(b + 2) as u8,
+                release_ticks: vin(b + 3) as u8,
+                repeat_ticks: vin(b + 4) as u8,
+            },
+        );
+    }
+    let snap = KeyboardSnapshot {
+        kol: vin(420) as u8,
+        koh: vin(421) as u8,
+        kil_latch: 0,
+        fifo_len: vin(430) as usize,
+        fifo: (0..8).map(|i| vin(440 + i) as u8).collect(),
+        head: vin(431) as usize,
+        tail: vin(432) as usize,
+        irq_count: vin(433),
+        strobe_count: 0,
+        active_columns: Vec::new(),
+        pressed_keys: Vec::new(),
+        key_states,
+        column_histogram: Vec::new(),
+        press_threshold: vin(423) as u8,
+        release_threshold: vin(424) as u8,
+        repeat_delay: vin(425) as u8,
+        repeat_interval: vin(426) as u8,
+        columns_active_high: vin(422) & 1 != 0,
+        scan_enabled: true,
+        kil_read_count: 0,
+    };
+    let mut kb = KeyboardMatrix::new();
+    kb.load_snapshot_state(&snap);
+    kb.set_repeat_enabled(vin(427) & 1 != 0);
+    mem.write_internal_byte(0xFC, vin(434) as u8);
+    kb
+}
+
+fn kb_op(kb: &mut KeyboardMatrix, mem: &mut MemoryImage) {
+    let (a1, a2, a3) = (vin(451), vin(452), vin(453));
+    match vin(450) {
+        0 => vout(1, kb.scan_tick(mem, a1 & 1 != 0) as u32),
+        1 => vout(1, kb.handle_read(a1, mem).map(|v| v as u32).unwrap_or(0x100)),
+        2 => vout(1, kb.handle_write(a1, a2 as u8, mem) as u32),
+        3 => kb.press_matrix_code(a1 as u8, mem),
+        4 => kb.release_matrix_code(a1 as u8, mem),
+        5 => vout(1, kb.inject_matrix_event(a1 as u8, a2 & 1 != 0, mem, a3 & 1 != 0) as u32),
+        6 => kb.write_fifo_to_memory(mem, a1 & 1 != 0),
+        _ => {}
+    }
+}
+
+/// Public observers (cheap ones; per-key automaton state and the event ring are read from memory by the
+/// interpreter in the symbolic run, and through snapshot_state()/fifo_snapshot() in the native replay).
+fn kb_dump(kb: &mut KeyboardMatrix, mem: &mut MemoryImage, native: bool) {
+    vout(2, mem.read_internal_byte(0xFC).map(|v| v as u32).unwrap_or(0x100));
+    vout(3, kb.irq_count());
+    vout(4, kb.fifo_len() as u32);
+    if native {
+        let f = kb.fifo_snapshot();
+        for (i, b) in f.iter().enumerate() {
+            vout(20 + i as u32, *b as u32);
+        }
+    }
+    vout(5, mem.read_internal_byte(0xF0).map(|v| v as u32).unwrap_or(0x100));
+    vout(6, mem.read_internal_byte(0xF1).map(|v| v as u32).unwrap_or(0x100));
+    kb.handle_write(0xF2, 0, mem); // publishes the KIL latch
+    vout(7, mem.read_internal_byte(0xF2).map(|v| v as u32).unwrap_or(0x100));
+    vout(8, kb.handle_read(0xF0, mem).map(|v| v as u32).unwrap_or(0x100));
+    vout(9, kb.handle_read(0xF1, mem).map(|v| v as u32).unwrap_or(0x100));
+    // KEYI latch: with ISR cleared and keyboard interrupts enabled, is the key interrupt (re)raised?
+    mem.write_internal_byte(0xFC, 0);
+    kb.write_fifo_to_memory(mem, true);
+    vout(10, mem.read_internal_byte(0xFC).map(|v| v as u32).unwrap_or(0x100));
+}
+
+#[no_mangle]
+pub extern "C" fn harness_kb() -> i32 {
+    let mut mem = MemoryImage::new();
+    let mut kb = Box::new(kb_prepare(&mut mem)); // on the heap: live cells are found by scanning heap memory
+    vout(99, 0); // the interpreter locates the per-key cells here ...
+    kb_op(&mut kb, &mut mem);
+    vout(98, 0); // ... and reads them back here
+    kb_dump(&mut kb, &mut mem, false);
+    0
+}
+
+/// Native replay: as harness_kb plus the per-key automaton state through snapshot_state().
+#[no_mangle]
+pub extern "C" fn harness_kb_native() -> i32 {
+    let mut mem = MemoryImage::new();
+    let mut kb = kb_prepare(&mut mem);
+    kb_op(&mut kb, &mut mem);
+    let snap = kb.snapshot_state();
+    for i in 0..2u32 {
+        if let Some(st) = snap.key_states.get(&kb_name(300 + 40 * i)) {
+            let b = 100 + 8 * i;
+            vout(b, st.pressed as u32);
+            vout(b + 1, st.debounced as u32);
+            vout(b + 2, st.press_ticks as u32);
+            vout(b + 3, st.release_ticks as u32);
+            vout(b + 4, st.repeat_ticks as u32);
+        }
+    }
+    kb_dump(&mut kb, &mut mem, true);
+    0
+}
+
 /// Entry-point dispatch for the native replay binary.
 pub fn dispatch(name: &str) -> i32 {
     match name {
@@ -341,6 +468,8 @@ pub fn dispatch(name: &str) -> i32 {
         "harness_timer_reset" => harness_timer_reset(),
         "harness_lcd_op" => harness_lcd_op(),
         "harness_lcd_pixels" => harness_lcd_pixels(),
+        "harness_kb" => harness_kb(),
+        "harness_kb_native" => harness_kb_native(),
         _ => -999,
     }
 }
